@@ -357,6 +357,18 @@ func (w *World) ParamValue(key string, wellFormed bool) []byte {
 	case "pos/MaxEvidenceAge":
 		return jsonOf(time.Duration(r.PickI64(60, 120, 3600)) * time.Second)
 	case "pos/SignedBlocksWindow":
+		if w.P.WindowChanges {
+			// (only in histories set aside for it: there the window-content rules of C08 are suspended after the first change)
+			cur := ParamsOf(w.View()).Window
+			v := []int64{cur / 2, cur * 2, cur + 5, 10, 20}[r.Intn(5)]
+			if v < 5 {
+				v = 5
+			}
+			if v > 60 {
+				v = 60
+			}
+			return jsonOf(v)
+		}
 		return nil // window parameters are constant within a history (DESIGN §7)
 	case "pos/MinSignedPerWindow":
 		return nil
@@ -396,6 +408,9 @@ func (w *World) buildGovParam(v *View, cp CurParams) (*TxSpec, string) {
 	}
 	if w.P.UnstakingTimeChanges && w.R.Chance(40) {
 		key = "pos/UnstakingTime"
+	}
+	if w.P.WindowChanges && w.R.Chance(40) {
+		key = "pos/SignedBlocksWindow"
 	}
 	if lc := w.lastACL; lc != nil && lc.h == w.Env.H+1 && w.R.Chance(60) && lc.key != "gov/acl" {
 		// the ownership of this key was (tried to be) handed over earlier in this very block: the former and the new
